@@ -230,7 +230,11 @@ func (c *EvalCtx) evalBin(e *Expr) CV {
 	case "-":
 		return CV{VT{B.Sub(x, y)}, nil}
 	case "*":
-		return CV{VT{B.Mul(x, y)}, nil}
+		pr := B.Mul(x, y)
+		if c.inQuant == 0 && !pr.bound {
+			c.vc().noteProduct(x, y, pr)
+		}
+		return CV{VT{pr}, nil}
 	case "/":
 		return CV{VT{B.Div(x, y)}, nil}
 	case "%":
@@ -637,6 +641,15 @@ func (c *EvalCtx) evalCall(e *Expr) CV {
 			alts = append(alts, B.And(B.Le(r.Base, base), B.Le(B.Add(base, size), B.Add(r.Base, r.Size))))
 		}
 		return CV{VT{B.Or(alts...)}, nil}
+	case "freshregion":
+		// freshregion(p, n): memory allocated by the callee: disjoint from every region known so far
+		base, size := c.evalInt(e.Args[0]), c.evalInt(e.Args[1])
+		if c.declareRegions {
+			vc.fact(B.And(B.Lt(B.Int(0), base), B.Le(B.Add(base, size), B.Big(maxAddr))))
+			vc.freshRegion(c.st, base, size)
+			return CV{VT{B.True()}, nil}
+		}
+		evalFail("freshregion is only meaningful in the postcondition of a trusted allocator")
 	case "within":
 		a, n, base, m := c.evalInt(e.Args[0]), c.evalInt(e.Args[1]), c.evalInt(e.Args[2]), c.evalInt(e.Args[3])
 		return CV{VT{B.And(B.Le(base, a), B.Le(B.Add(a, n), B.Add(base, m)))}, nil}
@@ -674,6 +687,33 @@ func (c *EvalCtx) evalCall(e *Expr) CV {
 		}
 		i := c.evalInt(e.Args[1])
 		return CV{VT{B.Select(vc.heapGet(c.st, fmt.Sprintf("ghost:arg%s:%s", i.ival.String(), key)), B.Int(0))}, nil}
+	case "stringAt":
+		// stringAt(p): the string header stored at address p
+		a := c.evalInt(e.Args[0])
+		st := types.Typ[types.String]
+		if c.inQuant > 0 {
+			return CV{c.quantLoad(a, "", st), st}
+		}
+		return CV{vc.loadTyped(c.st, a, "", st), st}
+	case "cast":
+		// cast(p, T): view the pointer value p as *T (T a struct type of the package in scope)
+		if len(e.Args) != 2 || e.Args[1].Op != "name" {
+			evalFail("cast(pointer, TypeName)")
+		}
+		v := arg(0)
+		var sp *ssa.Package
+		if c.pkg != "" {
+			sp = vc.P.ByPkg[c.pkg]
+		}
+		if sp == nil && c.f.fn != nil {
+			sp = c.f.fn.Pkg
+		}
+		if sp != nil {
+			if tn, ok := sp.Members[e.Args[1].Name].(*ssa.Type); ok {
+				return CV{v.V, types.NewPointer(tn.Type())}
+			}
+		}
+		evalFail("cast: unknown type %s", e.Args[1].Name)
 	case "poolfree":
 		// poolfree(e): the value of e does not mention the contents a pooled object had when
 		// this call began (syntactic independence: no entry-heap symbol of a pooled struct class)
